@@ -689,6 +689,32 @@ pub fn multiline_family() -> Vec<String> {
     out
 }
 
+/// over-long inputs (> MAX_LENGTH) that contain newlines and multi-byte characters at chosen
+/// places: the only errors whose offset lies on a later line
+pub fn long_multiline_family() -> Vec<String> {
+    let mut out = vec![];
+    for total in [257usize, 258, 300, 513] {
+        for nl in [0usize, 1, 2, 100, 254, 255, 256] {
+            for fill in ["2", "a", "é", " "] {
+                for second in [None, Some(50usize), Some(255)] {
+                    let mut s = String::new();
+                    while s.len() < total {
+                        if s.len() == nl || Some(s.len()) == second {
+                            s.push('\n');
+                        } else {
+                            s.push_str(fill);
+                        }
+                    }
+                    out.push(s.clone());
+                    out.push(format!("1.2.3-{}", s));
+                    out.push(format!("{}\r\n{}", &s[..s.char_indices().nth(10).map(|x| x.0).unwrap_or(0)], s));
+                }
+            }
+        }
+    }
+    out
+}
+
 pub fn run_c17(tier: &str, sink: &Sink) -> BOut {
     let c = BCounters::default();
     let nv = n_for(tier, 'v');
@@ -727,6 +753,15 @@ pub fn run_c17(tier: &str, sink: &Sink) -> BOut {
         on_r(&s);
     }
     for s in multiline_family() {
+        on_v(&s);
+        on_r(&s);
+    }
+    for s in long_multiline_family() {
+        on_v(&s);
+        on_r(&s);
+    }
+    // multi-byte characters at every alignment around the length limit and inside short inputs
+    for s in crate::engine_b6::multibyte_family() {
         on_v(&s);
         on_r(&s);
     }
